@@ -320,6 +320,10 @@ impl<C: BlsSignatureImpl> SecretKey<C> {
         limit: usize,
         rng: impl RngCore + CryptoRng,
     ) -> BlsResult<Vec<SecretKeyShare<C>>> {
+        // share identifiers are a single byte, more than 255 shares can never be created
+        if limit > u8::MAX as usize {
+            return Err(BlsError::VsssError);
+        }
         let shares = shamir::split_secret(threshold, limit, self.0, rng)?
             .into_iter()
             .map(SecretKeyShare)
